@@ -58,7 +58,7 @@ def run(ctx):
     # ---- JUDGE ----
     plan = [(1, 6, 12), (2, 6, 25), (4, 5, 60), (16, 3, 200)]
     if ctx.thorough:
-        plan += [(3, 10, 40), (8, 6, 400), (16, 4, 1500), (2, 10, 9), (5, 8, 100)]
+        plan += [(3, 10, 40), (8, 4, 150), (16, 3, 300), (2, 10, 9), (5, 8, 100)]
     ntr = nev = 0
     samples = []
     for i, (nw, nexec, maxt) in enumerate(plan):
